@@ -398,8 +398,10 @@ Print Assumptions C19_valid_scan_transfers_per_state.
    Missing for the full statement: (a) lexical faults closer to the configuration the valid scan reaches than
    the margin of the state function before it (4 to 8 bytes after an ordinary tag; the model's [next] decodes up
    to four bytes, so one rune of look-ahead costs 4); (b) that an unterminated construct does END the scan in an
-   error item of its class (proved per scanning loop -- C19_block_comment_error_at_end, C19_string_error_at_end,
-   C19_unclosed_tag_at_end -- under the hypothesis that the loop ends the scan, not from the text of the fault);
+   error item of its class: proved from the text of the fault for a block comment (C19_unterminated_comment_line
+   below: ASCII without star-slash after the opening), for strings, tags and soydoc only per scanning loop
+   (C19_string_error_at_end, C19_unclosed_tag_at_end, C19_scan_final_item) under the hypothesis that the loop ends
+   the scan;
    (c) the parser-level classes (unknown command, end of input inside a template, fault inside a quoted
    attribute expression): C19_parse_error_position_all says WHICH item is reported (last or last-but-one
    received), C19_print_trailing_token_reported covers {foo $x}; their exact line is not derived from the valid
@@ -458,6 +460,39 @@ Proof.
   - intros. eapply (eof_fault_after_valid_prefix ul ud Hl Hd pre r1 r2); eassumption.
 Qed.
 Print Assumptions C19_fault_line_partial.
+
+(* an unterminated block comment, from the TEXT of the fault (item (b) of the list above, for this class): from
+   whatever configuration in the block-comment state the scan of the faulted file s itself reaches -- the cursor
+   stands after the opening slash-star, at any offset, no margin -- if only ASCII without a closing star-slash
+   follows, the items of s are the items sent so far and the error item `unclosed comment` at the end of the input;
+   its line is the last line of s, not before the line of any position of s *)
+From Soy Require Import Proofs.ErrPosUnterminated.
+Open Scope N_scope.
+Theorem C19_unterminated_comment_line :
+  forall ul ud s k l body fuel,
+    steps ul ud s 0 k LText lex_init = Ok (LBlockComment, l) -> (0 <= l_pos l <= Z.of_nat (length s))%Z ->
+    drop (Z.to_nat (l_pos l)) s = body -> Forall c19_ascii body -> c19_no_close false body ->
+    let e := err_item (Z.of_nat (length s)) e_comment_eof in
+    lex_items ul ud (k + S fuel) false s = Ok (rev (l_out l) ++ [e]) /\
+    t_pos e = N.of_nat (length s) /\ line_at s (t_pos e) = lines s /\
+    (forall opened, (opened <= N.of_nat (length s))%N -> (line_at s opened <= line_at s (t_pos e))%N).
+Proof. exact c19_unterminated_comment_reached. Qed.
+Print Assumptions C19_unterminated_comment_line.
+
+Definition ex_open_comment : bstr := Eval vm_compute in b "a /* b
+c
+".
+Example C19_unterminated_comment_nonvacuous :
+  let nl := fun _ : Z => false in
+  exists l, steps nl nl ex_open_comment 0 1 LText lex_init = Ok (LBlockComment, l) /\ l_pos l = 4%Z /\
+    Forall c19_ascii (drop 4 ex_open_comment) /\ c19_no_close false (drop 4 ex_open_comment) /\
+    lex_items nl nl 5 false ex_open_comment = Ok (rev (l_out l) ++ [err_item 9 e_comment_eof]) /\
+    line_at ex_open_comment 9%N = 3%N /\ lines ex_open_comment = 3%N.
+Proof.
+  cbv zeta. eexists. split; [vm_compute; reflexivity|]. split; [reflexivity|].
+  split; [vm_compute; repeat constructor|]. split; [vm_compute; intuition discriminate|].
+  vm_compute. repeat split; reflexivity.
+Qed.
 
 (* the earlier, weaker form (kept: it holds of the parser model for ANY expression parser, scanner of
    quoted expressions and strconv.Unquote handed to it) *)
